@@ -204,6 +204,10 @@ func (c04) Gen(rng *rand.Rand, tier string, idx int) Case {
 			}
 		}
 	default:
+		if mode == "agg" && arity > 0 && rng.Intn(4) == 0 {
+			c.Cfg = append(c.Cfg, []string{"fieldnames", "computed"})
+			c.Stat = append(c.Stat, "agg-computed-key-names")
+		}
 		n := 1
 		if mode == "cnt" || mode == "glb" {
 			n = []int{1, 2, 2, 3}[rng.Intn(4)]
@@ -227,6 +231,9 @@ func c04FnExpr(fn string, i int) string {
 	if fn == "-" {
 		return fmt.Sprintf("g%d", i)
 	}
+	if fn == "floorhalf" { // a computed key whose text contains a dot (it is not a nested path)
+		return fmt.Sprintf("floor(g%d * 0.5)", i)
+	}
 	return fmt.Sprintf("%s(g%d)", fn, i)
 }
 
@@ -245,7 +252,7 @@ func c04GenFnKeys(rng *rand.Rand, c Case, arity int, pool [][]string) Case {
 		case "s":
 			fns[i] = []string{"upper", "lower", "upper", "lower", "upper", "-"}[rng.Intn(6)]
 		case "i", "x":
-			fns[i] = []string{"abs", "abs", "abs", "abs", "-"}[rng.Intn(5)]
+			fns[i] = []string{"abs", "abs", "floorhalf", "floorhalf", "-"}[rng.Intn(5)]
 		default:
 			fns[i] = []string{"upper", "abs"}[rng.Intn(2)] // all NULL / bool: the function fails or yields its NULL result
 		}
@@ -265,6 +272,14 @@ func c04GenFnKeys(rng *rand.Rand, c Case, arity int, pool [][]string) Case {
 			// a key whose function has nothing to work on (NULL / missing / wrong type) in front of other keys
 			j := rng.Intn(arity - 1)
 			t[j] = []string{"n", "m", "b:t"}[rng.Intn(3)]
+		}
+		for j := range t {
+			// floor(g * 0.5) over NULL / a bool: the bridge (group key) fails while the SELECT item's evaluator yields 0 —
+			// NULL arithmetic inside a function argument is C06's recorded finding (null-operand-exprlang), not a
+			// question of partitioning: such cells stay numeric here
+			if fns[j] == "floorhalf" && (t[j] == "n" || t[j] == "m" || strings.HasPrefix(t[j], "b:")) {
+				t[j] = c04ValTok([]float64{0.5, 3, 100, 7.25}[rng.Intn(4)], true)
+			}
 		}
 		c.Cfg = append(c.Cfg, append([]string{"raw", strconv.Itoa(i + 1)}, t...))
 		row := c04Row(i+1, t)
@@ -359,11 +374,22 @@ func c04CfgVal(c Case, key, dflt string) string {
 	return dflt
 }
 
+// c04Computed (cfg `fieldnames computed`, mode agg): the group fields are named like computed keys the stream injects
+// under their own text (`floor(g0*0.5)`): a name with dots and parentheses that is not a path.
+var c04Computed bool
+
+func c04FieldName(i int) string {
+	if c04Computed {
+		return fmt.Sprintf("floor(g%d*0.5)", i)
+	}
+	return fmt.Sprintf("g%d", i)
+}
+
 func c04Row(id int, toks []string) map[string]interface{} {
 	row := map[string]interface{}{"id": id}
 	for i, t := range toks {
 		if v, present := c04TokVal(t); present {
-			row[fmt.Sprintf("g%d", i)] = v
+			row[c04FieldName(i)] = v
 		}
 	}
 	return row
@@ -372,7 +398,7 @@ func c04Row(id int, toks []string) map[string]interface{} {
 func c04GroupFields(arity int) []string {
 	f := make([]string, arity)
 	for i := range f {
-		f[i] = fmt.Sprintf("g%d", i)
+		f[i] = c04FieldName(i)
 	}
 	return f
 }
@@ -580,6 +606,8 @@ func c04Session(arity int, rows [][]string) [][]string {
 
 func (c04) Exec(c Case) [][][]string {
 	mode := c04CfgVal(c, "mode", "enc")
+	c04Computed = mode == "agg" && c04CfgVal(c, "fieldnames", "") == "computed"
+	defer func() { c04Computed = false }()
 	arity, _ := strconv.Atoi(c04CfgVal(c, "arity", "0"))
 	n, _ := strconv.Atoi(c04CfgVal(c, "n", "1"))
 	alias := c04CfgVal(c, "alias", "0") == "1"
